@@ -47,6 +47,7 @@ def run(ctx, R, tier):
     R.rule("C06-R4", "size checks: receiver check dominates construction and precedes the body read; sender checks the payload it packs", floor=4)
     R.rule("C06-R5", "exact tiling: payload length check, declared-length cursor advance, cursor == annotations_size before the data store; body read is exact", floor=4)
     R.rule("C06-R6", "identity check (tag, version, magic) dominates normal construction; the 6-byte prefix is validated before the rest is read", floor=2)
+    R.rule("C06-R8", "the byte reader underneath recv_stub returns exactly the requested bytes and never reads past them (shared with C17-R1/R5)", floor=4)
     R.rule("C06-R7", "compression: flag set iff the payload was replaced by zlib.compress output; decompress guarded by the flag, flag cleared after", floor=2)
 
     snd = ctx.fn(PROTO + ".SendingMessage.__init__")
@@ -339,6 +340,15 @@ def run(ctx, R, tier):
     ok = len(vcalls) == 1 and all(any(rscfg.dominates(v, r) for v in ctx.node_of(rs, vcalls[0])) for r in ctx.node_of(rs, recvs[1]))
     R.check(ok, "C06-R6", "recv_stub|validate-prefix-first", "the 6-byte prefix is validated before the rest of the header is read", rs.loc(),
             "recv_stub keeps reading from a peer whose first bytes are not a Pyro header")
+
+    # ---------------------------------------------------------------- R8 (shared with C17-R1/R3)
+    from ..report import Rules
+    from . import c17
+    R17 = Rules("C17")
+    c17.run(ctx, R17, tier)
+    for o in R17.obs:
+        if o.rule in ("C17-R1", "C17-R5"):
+            R.add("C06-R8", o.key.split("|", 1)[1], o.desc + " (recv_stub relies on it to consume exactly this message's bytes)", o.ok, o.loc, o.detail)
 
     # ---------------------------------------------------------------- R7
     comp = [st for st, t, k in stores_in(snd.node) if k == "assign" and isinstance(t, ast.Name) and isinstance(st.value, ast.Call) and dotted(st.value.func) == "zlib.compress"]
